@@ -246,7 +246,8 @@ LEVEL_TEXT = ("Totality enumeration and a source-to-sink rule on MIR: every pani
               "ones the interval analysis and the window/prefix guard models cannot prove are matched by key and count against a reviewed table (the "
               "positional reads of peerlist_decode rest on its structure test, a relational argument intervals cannot carry); the marker scan advances by "
               "the marker length in every cycle; the bytes decoded by the big-number text codec pass a length-restoring step before positional use."
-              " The base-62 work buffer holds every digit for every input length (term comparison); the encoder sorts addresses into sections by variant alone.")
+              " The base-62 work buffer holds every digit for every input length (term comparison); the encoder sorts addresses into sections by variant alone;"
+              " the position the marker scan resumes from has no data dependence on the end-marker hit (no stretch of the text is skipped).")
 LEVEL_NOTE = ("Partial, and weaker than C19/C16 for R1: 2/3 of the sites rest on reviewed table entries. Not decided: round trip over all address lists/times/"
               "passwords, the age window arithmetic, marker derivation.")
-TECHNIQUE = "MIR panic-site enumeration + interval analysis + reviewed table; must-pass-through (restoring step) path rule"
+TECHNIQUE = "MIR panic-site enumeration + interval analysis + reviewed table; must-pass-through (restoring step) path rule; forward may-flow (taint) rule on the scan position"
